@@ -12,6 +12,7 @@ import (
 	"os"
 	"os/exec"
 	"path/filepath"
+	"regexp"
 	"sort"
 	"strconv"
 	"strings"
@@ -26,6 +27,7 @@ type replayCase struct {
 	Known     []string   `json:"known"`
 	FindingID string     `json:"finding_id"`
 	Thorough  bool       `json:"thorough"`
+	Free      bool       `json:"free,omitempty"`
 	// documentation only
 	Property string `json:"property,omitempty"`
 	Expect   string `json:"expect,omitempty"`
@@ -44,10 +46,98 @@ func goEnv() []string {
 	return append(os.Environ(), "GOFLAGS=-mod=mod", "GOPROXY=off", "GOSUMDB=off", "GOTOOLCHAIN=local", "CGO_ENABLED=0")
 }
 
+// threadedProperty: properties whose harnesses start goroutines; their native
+// runner is built from an instrumented scratch copy of ggql (see mutexOverlay)
+// so that a recorded schedule can be replayed deterministically.
+func threadedProperty(prop string) bool { return prop == "C12" || prop == "C20" }
+
+var lockCall = regexp.MustCompile(`([A-Za-z_][A-Za-z0-9_.]*)\.(Lock|Unlock)\(\)`)
+
+// mutexOverlay writes, under tmp, a copy of every non-test file of
+// /repo/pkg/ggql in which x.Lock() / x.Unlock() are rewritten to
+// verifLock(&x) / verifUnlock(&x), plus zz_verifhook.go defining them, and
+// returns the path of a go build -overlay file.  Nothing in /repo is touched;
+// the copy is regenerated from the current working tree on every run.
+func mutexOverlay(harnessDir, tmp string) (string, error) {
+	mod, err := os.ReadFile(filepath.Join(harnessDir, "go.mod"))
+	if err != nil {
+		return "", err
+	}
+	m := regexp.MustCompile(`replace\s+github.com/uhn/ggql\s+=>\s+(\S+)`).FindSubmatch(mod)
+	if m == nil {
+		return "", fmt.Errorf("no replace directive for ggql in harness go.mod")
+	}
+	pkgDir := filepath.Join(string(m[1]), "pkg", "ggql")
+	ents, err := os.ReadDir(pkgDir)
+	if err != nil {
+		return "", err
+	}
+	odir := filepath.Join(tmp, "overlay")
+	os.MkdirAll(odir, 0o755)
+	repl := map[string]string{}
+	nsites := 0
+	for _, e := range ents {
+		name := e.Name()
+		if !strings.HasSuffix(name, ".go") || strings.HasSuffix(name, "_test.go") {
+			continue
+		}
+		src, err := os.ReadFile(filepath.Join(pkgDir, name))
+		if err != nil {
+			return "", err
+		}
+		if !lockCall.Match(src) {
+			continue
+		}
+		out := lockCall.ReplaceAllFunc(src, func(b []byte) []byte {
+			sm := lockCall.FindSubmatch(b)
+			nsites++
+			return []byte("verif" + string(sm[2]) + "(&" + string(sm[1]) + ")")
+		})
+		dst := filepath.Join(odir, name)
+		if err := os.WriteFile(dst, out, 0o644); err != nil {
+			return "", err
+		}
+		repl[filepath.Join(pkgDir, name)] = dst
+	}
+	hook := `package ggql
+
+import "sync"
+
+// Added by the verification overlay only (never part of /repo).
+var (
+	VerifLock   = func(m *sync.Mutex) { m.Lock() }
+	VerifUnlock = func(m *sync.Mutex) { m.Unlock() }
+)
+
+func verifLock(m *sync.Mutex)   { VerifLock(m) }
+func verifUnlock(m *sync.Mutex) { VerifUnlock(m) }
+`
+	dst := filepath.Join(odir, "zz_verifhook.go")
+	if err := os.WriteFile(dst, []byte(hook), 0o644); err != nil {
+		return "", err
+	}
+	repl[filepath.Join(pkgDir, "zz_verifhook.go")] = dst
+	data, _ := json.Marshal(map[string]interface{}{"Replace": repl})
+	ofile := filepath.Join(tmp, "overlay.json")
+	if err := os.WriteFile(ofile, data, 0o644); err != nil {
+		return "", err
+	}
+	return ofile, nil
+}
+
 // buildReplayBinary compiles the native replay runner against /repo's current tree.
-func buildReplayBinary(harnessDir, tmp string) (string, error) {
+func buildReplayBinary(harnessDir, tmp string, threaded bool) (string, error) {
 	bin := filepath.Join(tmp, "replay")
-	cmd := exec.Command("go", "build", "-o", bin, "./cmd/replay")
+	args := []string{"build", "-o", bin}
+	if threaded {
+		ofile, err := mutexOverlay(harnessDir, tmp)
+		if err != nil {
+			return "", fmt.Errorf("mutex overlay: %v", err)
+		}
+		args = append(args, "-tags", "verifhooks", "-overlay", ofile)
+	}
+	args = append(args, "./cmd/replay")
+	cmd := exec.Command("go", args...)
 	cmd.Dir = harnessDir
 	cmd.Env = goEnv()
 	out, err := cmd.CombinedOutput()
@@ -55,6 +145,73 @@ func buildReplayBinary(harnessDir, tmp string) (string, error) {
 		return "", fmt.Errorf("building native replay runner: %v\n%s", err, out)
 	}
 	return bin, nil
+}
+
+// buildRaceBinary compiles the native runner with the Go race detector (no
+// instrumentation of ggql: goroutines run freely).
+func buildRaceBinary(harnessDir, tmp string) (string, error) {
+	bin := filepath.Join(tmp, "replay-race")
+	if _, err := os.Stat(bin); err == nil {
+		return bin, nil
+	}
+	cmd := exec.Command("go", "build", "-race", "-o", bin, "./cmd/replay")
+	cmd.Dir = harnessDir
+	env := []string{}
+	for _, e := range goEnv() {
+		if !strings.HasPrefix(e, "CGO_ENABLED=") {
+			env = append(env, e)
+		}
+	}
+	cmd.Env = append(env, "CGO_ENABLED=1")
+	out, err := cmd.CombinedOutput()
+	if err != nil {
+		return "", fmt.Errorf("building race-detector runner: %v\n%s", err, out)
+	}
+	return bin, nil
+}
+
+var raceMu sync.Mutex
+
+// confirmRace runs one case with free-running goroutines under the Go race
+// detector, up to `rounds` times; "race" when the detector reports.
+func confirmRace(harnessDir, tmp string, c replayCase, rounds int) replayResult {
+	raceMu.Lock()
+	defer raceMu.Unlock()
+	bin, err := buildRaceBinary(harnessDir, tmp)
+	if err != nil {
+		return replayResult{ID: c.ID, Status: "error", Msg: err.Error()}
+	}
+	c.Free = true
+	f := filepath.Join(tmp, fmt.Sprintf("race-%d.json", time.Now().UnixNano()))
+	data, _ := json.Marshal([]replayCase{c})
+	os.WriteFile(f, data, 0o644)
+	defer os.Remove(f)
+	last := replayResult{ID: c.ID, Status: "ok"}
+	for k := 0; k < rounds; k++ {
+		cmd := exec.Command(bin, f)
+		cmd.Env = append(os.Environ(), "GORACE=halt_on_error=1 exitcode=66")
+		var stdout, stderr bytes.Buffer
+		cmd.Stdout, cmd.Stderr = &stdout, &stderr
+		err := cmd.Run()
+		if strings.Contains(stderr.String(), "WARNING: DATA RACE") {
+			msg := stderr.String()
+			if len(msg) > 1500 {
+				msg = msg[:1500]
+			}
+			return replayResult{ID: c.ID, Status: "race", Label: "data race", Msg: msg}
+		}
+		var r replayResult
+		if json.NewDecoder(&stdout).Decode(&r) == nil {
+			last = r
+			if failingStatus(r.Status) {
+				return r
+			}
+		} else if err != nil {
+			last = replayResult{ID: c.ID, Status: "crash", Msg: firstN(stderr.String(), 600)}
+			return last
+		}
+	}
+	return last
 }
 
 // runNative runs the cases natively; a hanging case terminates the process,
@@ -111,7 +268,7 @@ func runNative(bin, tmp string, cases []replayCase) (map[int]replayResult, error
 
 func failingStatus(s string) bool {
 	switch s {
-	case "assert", "panic", "hang", "crash":
+	case "assert", "panic", "hang", "crash", "race":
 		return true
 	}
 	return false
@@ -214,8 +371,24 @@ func checkHarness(P *Program, o checkOpts, h string, known map[string]KnownFindi
 		return out
 	}
 	perLabel := map[string]int{}
+	raceConfirmed := 0
 	for k, v := range hr.Violations {
 		r := res[k]
+		if v.Kind == "panic" && strings.Contains(v.Msg, "DATA RACE") {
+			// the schedule-following native run is serialised by the baton, so a
+			// race cannot show there: confirm with free-running goroutines under
+			// the Go race detector (first few only, they are the same pair)
+			if raceConfirmed < 2 {
+				r = confirmRace(o.HarnessDir, tmp, cases[k], 30)
+				if r.Status == "race" {
+					raceConfirmed++
+					cases[k].Free = true
+				}
+			} else {
+				r = replayResult{ID: k, Status: "race", Label: "data race", Msg: "same race as confirmed above"}
+				cases[k].Free = true
+			}
+		}
 		if failingStatus(r.Status) {
 			perLabel[v.Label]++
 			if perLabel[v.Label] <= 2 {
@@ -235,6 +408,9 @@ func checkHarness(P *Program, o checkOpts, h string, known map[string]KnownFindi
 		if r.Status != "ok" || !sameStrings(r.Observes, s.Observes) {
 			out.inconcl = append(out.inconcl, fmt.Sprintf("%s: engine/native disagreement on inputs %s: engine ok %v, native %s %s %v",
 				h, inputsString(s.Inputs), s.Observes, r.Status, r.Msg, r.Observes))
+			if os.Getenv("GOSYM_KEEP_DISAGREE") != "" {
+				saveReplay(replayDir, prop, cases[base+k], &Violation{Kind: "disagree", Label: "engine/native disagreement"}, r)
+			}
 		} else {
 			*nValidated++
 			he.NativeValidated++
@@ -386,7 +562,7 @@ func runCheck(o checkOpts) int {
 	}
 	binCh := make(chan binRes, 1)
 	go func() {
-		b, err := buildReplayBinary(o.HarnessDir, tmp)
+		b, err := buildReplayBinary(o.HarnessDir, tmp, threadedProperty(prop))
 		binCh <- binRes{b, err}
 	}()
 
@@ -675,11 +851,6 @@ func runReplay(harnessDir, file string) int {
 		return 3
 	}
 	defer os.RemoveAll(tmp)
-	bin, err := buildReplayBinary(harnessDir, tmp)
-	if err != nil {
-		fmt.Fprintln(os.Stderr, err)
-		return 3
-	}
 	data, err := os.ReadFile(file)
 	if err != nil {
 		fmt.Fprintln(os.Stderr, err)
@@ -690,12 +861,22 @@ func runReplay(harnessDir, file string) int {
 		fmt.Fprintln(os.Stderr, err)
 		return 3
 	}
-	res, err := runNative(bin, tmp, []replayCase{c})
-	if err != nil {
-		fmt.Fprintln(os.Stderr, err)
-		return 3
+	var r replayResult
+	if c.Free {
+		r = confirmRace(harnessDir, tmp, c, 30)
+	} else {
+		bin, err := buildReplayBinary(harnessDir, tmp, threadedProperty(c.Property))
+		if err != nil {
+			fmt.Fprintln(os.Stderr, err)
+			return 3
+		}
+		res, err := runNative(bin, tmp, []replayCase{c})
+		if err != nil {
+			fmt.Fprintln(os.Stderr, err)
+			return 3
+		}
+		r = res[c.ID]
 	}
-	r := res[c.ID]
 	fmt.Printf("harness=%s inputs: %s\nexpected: %s\nnative: %s %s %s\n", c.Harness, inputsString(c.Inputs), c.Expect, r.Status, r.Label, r.Msg)
 	if r.Stack != "" {
 		fmt.Println(r.Stack)
